@@ -6,17 +6,26 @@ From BS Require Import Abs.Values Abs.ValuesProofs.
 
 (* While peer w alone writes the key (any number of writes, any values, bursts and pauses, every
    interleaving of the detector runs / sends / deliveries of all peers, any number of clients,
-   joins anywhere): every value any peer ever shows was written, and the sequence of values any
-   OTHER peer displays — change after change, third peers behind the host's relay included — is
-   a subsequence of the written values in the order written. (When the writer is the host,
-   joins must not fall between its detector run and its send: known finding S21 below.) *)
+   joins ANYWHERE, the host as writer included): every value any peer ever shows was written, and
+   the sequence of values any OTHER peer displays — change after change, third peers behind the
+   host's relay and joiners included — is a subsequence of the written values in the order written.
+   (Before the repair 8f66353 of S21 a join between the host's detector run and its send showed the
+   joiner b, a, b: reproduced on the real code, see the corpus scenario S21.) *)
 Theorem C10_single_writer :
   forall n w tr s',
     vrun (vinit n) tr = Some s' -> only_writer w tr ->
-    (w = host -> joins_clean (vinit n) tr = true) ->
     (forall p v, pcur s' p = Some v -> v ∈ written tr) /\
     (forall p, p <> w -> displayed p (vinit n) tr `sublist_of` written tr).
-Proof. exact ValuesProofs.C10_single_writer. Qed.
+Proof. exact ValuesProofs.C10_single_writer_any_join. Qed.
+
+(* ... at every point of the run, not only at its end *)
+Theorem C10_every_prefix :
+  forall n w tr1 tr2 s1,
+    only_writer w (tr1 ++ tr2) ->
+    vrun (vinit n) tr1 = Some s1 ->
+    (forall p v, pcur s1 p = Some v -> v ∈ written tr1) /\
+    (forall p, p <> w -> displayed p (vinit n) tr1 `sublist_of` written tr1).
+Proof. exact ValuesProofs.C10_every_prefix_any_join. Qed.
 
 (* ... ending with the last one: at quiescence every peer shows the last written value *)
 Theorem C10_ends_with_last :
@@ -32,15 +41,7 @@ Theorem C10_relay_loses_nothing :
     forall c, c ∈ vconn s' -> c <> w -> lastd (pcur s' c) (link s' host c) = pcur s' host.
 Proof. exact ValuesProofs.relay_loses_nothing. Qed.
 
-(* Known finding S21: with the host as writer and a join between its detector run and its send,
-   the joiner sees a newer value (snapshot) and then an older queued one. *)
-Theorem C10_refuted_host_writer_join :
-  exists n w tr s' p,
-    vrun (vinit n) tr = Some s' /\ only_writer w tr /\ p <> w /\
-    ~ displayed p (vinit n) tr `sublist_of` written tr.
-Proof. exact ValuesProofs.C10_host_join_refuted. Qed.
-
 Print Assumptions C10_single_writer.
 Print Assumptions C10_ends_with_last.
 Print Assumptions C10_relay_loses_nothing.
-Print Assumptions C10_refuted_host_writer_join.
+Print Assumptions C10_every_prefix.
